@@ -1,13 +1,13 @@
-\* design run (thorough): <= 1 buffer, 1 pool (<= 1536 bytes) with <= 2 live reservations of 40/100/300 bytes
+\* design run (quick, part 2): 1 pool (<= 1536 bytes) with <= 2 live reservations of 40/100/300 bytes, alignments 32/128/512, no buffers, all histories
 SPECIFICATION Spec
 CONSTANTS
   ResSizes = {40, 100, 300}
   Aligns = {32, 128, 512}
-  ResizeTo = {0, 200, 512, 1024}
+  ResizeTo = {0, 200, 512}
   MaxPoolBytes = 1536
-  Sizes = {48}
+  Sizes = {16}
   MaxLiveRes = 2
-  MaxBufs = 1
+  MaxBufs = 0
   MaxPools = 1
   MaxHist = 0
   HostPtrImpl = "counted"
